@@ -23,6 +23,7 @@ JudgeRecv(c) ==
         ELSE IF o.kind = "hang" THEN "C12:hang"
         ELSE IF n >= 1 /\ before >= c.flen THEN "C12:overread"            \* asked for more after the frame was complete
         ELSE IF o.kind = "exc" /\ o.comm = 0 THEN "C12:foreign-exception"
+        ELSE IF \E j \in 1..n : c.calls[j][2] < 0 /\ j < n THEN "C12:error-swallowed"      \* a socket error ends the call: nothing is read after it
         ELSE IF lastk <= 0                                                  \* peer closed / errored before completion
              THEN (IF o.kind = "exc" THEN "ok" ELSE "C12:partial")
         ELSE IF total = c.flen                                              \* delivered completely
